@@ -106,8 +106,7 @@ class Ctx:
                         open(p, "w").write(s2)
         meta = os.path.join(d, "meta")
         cmd = ["java", "-XX:+UseParallelGC"]
-        if heap:
-            cmd.append("-Xmx" + heap)
+        cmd.append("-Xmx" + (heap or os.environ.get("VERIF_TLC_HEAP", "8g")))
         cmd.append("-Xss64m")
         if dfs:
             cmd.append("-Dtlc2.tool.queue.IStateQueue=StateDeque")
